@@ -83,6 +83,10 @@ def gen_cases(rng, tier):
           "atan2(x, y)", "atan2(2 * x, y + 1) - atan2(y + 1, 2 * x)", "ATAN2(y, x) / 2", "multiplicity(x, y)",
           "sgn(x - 3)", "sgn(-2) * x", "SGN(x) / 2", "sgn(3)/sgn(5)*3", "sgn(y - x) * sgn(x - y)", "2 ^ sgn(x)", "sgn(0) + sgn(1/3)"]
     texts += fn
+    # a power of a parenthesised power with a FRACTIONAL outer exponent: (x ** 2) ** (1/2) is |x|, not x -- the two powers
+    # are not merged into one (evaluated at negative points too)
+    texts += ["(x ** 2) ** (1/2)", "(x ^ 2) ^ (1/2)", "(x ** 2) ** (3/2)", "((x - y) ** 2) ** (1/2)", "(a.#q ** 2) ** (1/2) + 1", "(x ** 4) ** (1/2)",
+              "(x ** 2) ** (1/2) - x", "2 * (y ^ 2) ^ (1/2) / 3"]
     # identifiers wrapped in underscores the way the parser's own placeholders (__lambda__, __in__) are: ordinary names, every
     # one of them distinct from the name between the underscores
     texts += ["__n__", "__n__ - n", "2*__n__ + n**2", "a.__n__.x", "a.#__n__ + a.#n", "__max__(2, 5)", "__f__(x) - f(x)", "_x_ + x", "__x + x__",
